@@ -60,3 +60,87 @@ package types
 //@ func (g *infiniteGasMeter) IsOutOfGas() (r bool)
 //@   props C16
 //@   ensures !r
+
+// ---------------------------------------------------------------- observer ghosts for wrapped stores
+//
+// Wrapper stores (prefix, gaskv, tracekv) are specified by what they pass to the store they
+// wrap. The interface contracts below are observers: every call through a KVStore / Iterator /
+// GasMeter interface records its receiver, its arguments and the value it returned in ghost
+// variables, and counts the call. A wrapper's contract then states that it makes exactly the
+// expected delegate call with exactly the expected (e.g. prefixed) key and passes the result on.
+
+//@ ghost kv.calls Int
+//@ ghost kv.op Int
+//@ ghost kv.recv $store/types.KVStore
+//@ ghost kv.key $[]byte
+//@ ghost kv.val $[]byte
+//@ ghost kv.ret $[]byte
+//@ ghost kv.retb Bool
+//@ ghost kv.iter $store/types.Iterator
+//@ ghost kv.gasAtCall Int
+//@ ghost it.calls Int
+//@ ghost it.op Int
+//@ ghost it.recv $store/types.Iterator
+//@ ghost it.ret $[]byte
+//@ ghost it.retb Bool
+//@ ghost it.gasAtCall Int
+//@ ghost gas.used Int
+//@ ghost gas.limit Int
+//@ ghost gas.calls Int
+
+//@ iface func (s KVStore) Get(key []byte) (r []byte)
+//@   modifies kv.*
+//@   ensures kv.calls == old(kv.calls) + 1 && kv.op == 1 && kv.recv == s && kv.key == key && kv.ret == r && kv.gasAtCall == gas.used
+//@
+//@ iface func (s KVStore) Has(key []byte) (r bool)
+//@   modifies kv.*
+//@   ensures kv.calls == old(kv.calls) + 1 && kv.op == 2 && kv.recv == s && kv.key == key && kv.retb == r && kv.gasAtCall == gas.used
+//@
+//@ iface func (s KVStore) Set(key, value []byte)
+//@   modifies kv.*
+//@   ensures kv.calls == old(kv.calls) + 1 && kv.op == 3 && kv.recv == s && kv.key == key && kv.val == value && kv.gasAtCall == gas.used
+//@
+//@ iface func (s KVStore) Delete(key []byte)
+//@   modifies kv.*
+//@   ensures kv.calls == old(kv.calls) + 1 && kv.op == 4 && kv.recv == s && kv.key == key && kv.gasAtCall == gas.used
+//@
+//@ iface func (s KVStore) Iterator(start, end []byte) (r Iterator)
+//@   modifies kv.*
+//@   ensures kv.calls == old(kv.calls) + 1 && kv.op == 5 && kv.recv == s && kv.key == start && kv.val == end && kv.iter == r && r != nil && kv.gasAtCall == gas.used
+//@
+//@ iface func (s KVStore) ReverseIterator(start, end []byte) (r Iterator)
+//@   modifies kv.*
+//@   ensures kv.calls == old(kv.calls) + 1 && kv.op == 6 && kv.recv == s && kv.key == start && kv.val == end && kv.iter == r && r != nil && kv.gasAtCall == gas.used
+//@
+// (the observer contracts of Iterator live in /verif/spec/extern/tmdb.go.txt: types.Iterator is an alias of tm-db's interface)
+//@
+//@ iface func (g GasMeter) ConsumeGas(amount Gas, descriptor string)
+//@   modifies gas.used, gas.calls
+//@   panics ErrorGasOverflow when gas.used + amount > 18446744073709551615
+//@   panics ErrorOutOfGas when gas.used + amount <= 18446744073709551615 && gas.used + amount > gas.limit
+//@   ensures gas.used == old(gas.used) + amount && gas.calls == old(gas.calls) + 1
+
+// ---------------------------------------------------------------- utils.go
+
+//@ func PrefixEndBytes(prefix []byte) (end []byte)
+//@   props C16
+//@   ensures (len(prefix) == 0 || (forall i int :: 0 <= i && i < len(prefix) ==> prefix[i] == 255)) <==> end == nil
+//@   ensures end != nil ==> 1 <= len(end) && len(end) <= len(prefix) && fresh(end)
+//@   ensures end != nil ==> (forall i int :: 0 <= i && i < len(end) - 1 ==> end[i] == prefix[i])
+//@   ensures end != nil ==> end[len(end) - 1] == prefix[len(end) - 1] + 1
+//@   ensures end != nil ==> (forall i int :: len(end) <= i && i < len(prefix) ==> prefix[i] == 255)
+//@   loop 1 invariant 1 <= len(end) && len(end) <= len(prefix) && fresh(end) && off(end) == 0 && len(end) <= cap(end)
+//@   loop 1 invariant forall i int :: 0 <= i && i < len(end) ==> end[i] == prefix[i]
+//@   loop 1 invariant forall i int :: len(end) <= i && i < len(prefix) ==> prefix[i] == 255
+//@   loop 1 decreases len(end)
+//@
+//@ func InclusiveEndBytes(inclusiveBytes []byte) (exclusiveBytes []byte)
+//@   props C16
+//@   modifies elems(inclusiveBytes)
+//@   ensures len(exclusiveBytes) == len(inclusiveBytes) + 1 && exclusiveBytes[len(inclusiveBytes)] == 0
+//@   ensures forall i int :: 0 <= i && i < len(inclusiveBytes) ==> exclusiveBytes[i] == old(inclusiveBytes[i])
+//@
+//@ func Cp(bz []byte) (ret []byte)
+//@   props C16
+//@   ensures (bz == nil) == (ret == nil)
+//@   ensures bz != nil ==> fresh(ret) && len(ret) == len(bz) && (forall i int :: 0 <= i && i < len(bz) ==> ret[i] == bz[i])
